@@ -116,6 +116,9 @@ def programs(seed, n, syms=gen.SYMS, kinds=("abelian", "fermionic"), tids=None, 
         else:
             inputs["x"] = matrix(rng, sym, kind, pattern=family if family != "float" else "monomial",
                                  floaty=(family == "float"), dtype=dtype)
+            if rng.random() < 0.35:
+                # some stored blocks are identically zero (e.g. after exact cancellation)
+                inputs["x"]["fill"]["zero_every"] = rng.choice([2, 3])
             decomposition_steps(rng, kind, steps, "x", exact=(family != "float"))
         # hermitian charge-zero matrix for eigh
         fl = rng.random() < 0.3
